@@ -418,6 +418,19 @@ func (e *fnEnc) call(st *state, at ssa.Value, c *ssa.CallCommon, instr ssa.Instr
 	case cbHavoc:
 		e.checkFrameCall(st, c, key)
 		e.havocAll(st)
+		// What the callbacks require independently of their arguments held at the call
+		// (callback-pre), is preserved by every invocation (callback-stable, proved with the
+		// literal) and the host writes nothing itself: it holds afterwards.
+		for _, ce := range cbEffects {
+			post := *ce.env
+			post.st = st
+			for _, r := range ce.fc.Requires {
+				if clauseMentionsParams(r.Expr, ce.env.fn) {
+					continue
+				}
+				e.assume(st, post.evalBool(r.Expr))
+			}
+		}
 	case fc.ModNone || (fc.Pure && !fc.ModSet):
 		e.bumpNext(st)
 	case fc.ModSet && !fc.ModAll:
